@@ -1129,6 +1129,8 @@ class StubsLib(StubsBase):
             self.frame_write_arr(target, f"augassign {type(op).__name__}", ctx)
             # operate on a snapshot of the current contents (the element function is replaced below)
             frozen = SArr(target.shape, target.elem, target.dtype, target.backend)
+            if rhs is target or (isinstance(rhs, Qty) and rhs.val is target):
+                rhs = frozen if rhs is target else Qty(frozen, rhs.dim, rhs.unit, rhs.cls)      # x op= x reads the old contents
             new = self.binop(op, Qty(frozen, cur.dim, cur.unit, cur.cls) if isinstance(cur, Qty) else frozen, rhs, ctx)
             newv = new.val if isinstance(new, Qty) else new
             if not isinstance(newv, SArr):
